@@ -61,6 +61,18 @@ func (d *cnDriver) emit(m map[string]any) {
 	d.w.WriteByte('\n')
 }
 
+// valRecords turns "pubkeyhex:power" strings into records TLC can read.
+func valRecords(vu []string) []map[string]any {
+	out := []map[string]any{}
+	for _, u := range vu {
+		parts := strings.Split(u, ":")
+		var p int64
+		fmt.Sscan(parts[1], &p)
+		out = append(out, map[string]any{"cons": parts[0], "power": p})
+	}
+	return out
+}
+
 func consAddrIndex(n *cnNet, pubHex string) int {
 	for i, v := range n.vals {
 		if fmt.Sprintf("%x", v.consPub.Bytes()) == pubHex {
@@ -303,8 +315,8 @@ func (d *cnDriver) step() error {
 	}
 	if d.rng.Intn(5) == 0 {
 		// entities try to unfreeze their nodes (fails unless frozen and the freeze period is over)
-		i := d.rng.Intn(n.cfg.Validators)
-		ename := fmt.Sprintf("E%d", i)
+		i := d.rng.Intn(len(n.vals))
+		ename := fmt.Sprintf("E%d", min(i, n.cfg.Validators-1)*btoi(i < n.cfg.Validators))
 		sp := cnTxSpec{Kind: "unfreeze", Signer: ename, To: fmt.Sprintf("N%d", i), Nonce: uint64(d.acctField(ename, "n")) + nonceBump[ename], Gas: 2000, Validity: "ok"}
 		if raw, err := n.buildTx(&sp, d.rng); err == nil {
 			nonceBump[ename]++
@@ -508,7 +520,7 @@ func (d *cnDriver) observe(b *cnBlock, metas []cnTxMeta) cnBlockResult {
 		}
 		res.AppHash = r.commit()
 		d.lastProj = proj
-		d.emit(map[string]any{"ev": "end", "h": b.Height, "state": proj, "valupd": res.ValUpd, "apphash": res.AppHash[:16]})
+		d.emit(map[string]any{"ev": "end", "h": b.Height, "state": proj, "valupd": res.ValUpd, "valupd2": valRecords(res.ValUpd), "apphash": res.AppHash[:16]})
 	})
 	if perr != nil {
 		res.Panic = perr.Error()
@@ -536,6 +548,8 @@ func consRun(args []string) int {
 	scratch := fs.String("scratch", "", "scratch directory")
 	schedFile := fs.String("schedule", "", "JSON file: list of per-height path rows (from TLC)")
 	onDisk := fs.Bool("ondisk", true, "validator replicas keep their state on disk (enables restart paths)")
+	maxVals := fs.Int("maxvals", 3, "scheduler MaxValidators")
+	extraNodes := fs.Int("extranodes", 0, "additional validator nodes run by entity 0 (per-entity limit stays 1)")
 	logLevel := fs.String("log", "", "oasis-core log level to stderr (debug|info|warn|error); empty = no logging")
 	fs.Parse(args)
 	if *logLevel != "" {
@@ -557,7 +571,7 @@ func consRun(args []string) int {
 	}
 	defer w.Close()
 	cfg := cnCfg{Validators: *vals, Users: *users, EpochInterval: *interval, Seed: *seed, ChainID: fmt.Sprintf("verif-chain-%d", *seed),
-		MaxValidators: 3, MaxPerEntity: 1}
+		MaxValidators: *maxVals, MaxPerEntity: 1, ExtraNodes: *extraNodes}
 	net, err := newNet(cfg, *scratch)
 	if err != nil {
 		fmt.Fprintln(os.Stderr, "net:", err)
@@ -580,7 +594,7 @@ func consRun(args []string) int {
 	}
 	obs.probes.sink = d.emit
 	d.reps = append(d.reps, obs)
-	for i := 0; i < *vals; i++ {
+	for i := 0; i < len(net.vals); i++ {
 		be := []string{"pathbadger", "badger"}[i%2]
 		r, err := net.newReplica(fmt.Sprintf("v%d", i), cnReplicaCfg{Backend: be, OnDisk: *onDisk, Identity: i, KeepN: uint64(2 * (i % 2)), MinGas: uint64(i % 2)})
 		if err != nil {
@@ -602,7 +616,7 @@ func consRun(args []string) int {
 		d.lastProj, _ = net.ledgerProjection(st)
 	}
 	d.emit(map[string]any{"ev": "begin_chain", "seed": *seed, "validators": *vals, "users": *users, "epoch_interval": *interval,
-		"state": d.lastProj, "valset": vu})
+		"state": d.lastProj, "valset": vu, "valset2": valRecords(vu)})
 	var runErr string
 	for i := 0; i < *blocks; i++ {
 		if err := d.step(); err != nil {
